@@ -37,6 +37,21 @@ def overlap_case(rng, n, i):
     return {"partial": rng.random() < 0.3, "terms": terms, "events": evs, "_layout": list(range(n)), "_kind": f"overlap{n}"}
 
 
+def guarded_case(rng, n, i):
+    """flat n-tuple; element i is a pattern that accepts NOTHING, written as a guarded wildcard (`matching!((_) if <false>)`), element
+    i+1 the catch-all of the same method written as `matching!((_) if <true>)`; the other matchers are written with matching! too"""
+    terms = []
+    for k in range(n):
+        if k == i: t = each(0, 0, k + 1, k + 1)
+        elif k == i + 1: t = each(0, 255, k + 1, k + 1)
+        else: t = each(rng.choice([1, 2, 3]), rng.choice([255, rng.randrange(1, 255)]), k + 1, k + 1)
+        t["pat"]["macro"] = True
+        terms.append(t)
+    evs = [{"base": ("call", 0, 0, rng.randrange(8))}, {"base": ("call", 0, rng.choice([1, 2, 3]), rng.randrange(8))},
+           {"base": ("call", 0, 0, rng.randrange(8))}, {"base": ("verify", 0)}]
+    return {"partial": rng.random() < 0.3, "terms": terms, "events": evs, "_layout": list(range(n)), "_kind": f"guarded{n}"}
+
+
 def ordered_case(rng, n):
     """flat n-tuple of ordered clauses over 3 methods: the slot sequence is the written sequence"""
     terms = [nxt(rng.choice([0, 1, 2]), k + 1, k + 1) for k in range(n)]
@@ -82,6 +97,8 @@ def targeted_cases(rng, tier):
             pos = sorted({0, n - 2} | set(rng.sample(range(n - 1), 2)))
         out += [overlap_case(rng, n, i) for i in pos]
         out.append(ordered_case(rng, n))
+        if n <= 6 or tier != "quick":
+            out.append(guarded_case(rng, n, rng.randrange(n - 1)))
     return out
 
 
@@ -91,6 +108,14 @@ def relayout(rng, case, kind=None):
     c = dict(case)
     if n == 0:
         return None
+    if rng.random() < 0.5:
+        # some of the matchers written with matching! (guarded wildcards, guarded bindings) instead of a matcher function
+        import copy
+        c["terms"] = copy.deepcopy(case["terms"])
+        for t in c["terms"]:
+            for p in ([t["pat"]] if t["kind"] == "call" else t["pats"]):
+                if rng.random() < 0.5:
+                    p["macro"] = True
     if kind == "flat" or (kind is None and 2 <= n <= 16 and rng.random() < 0.5):
         if not 2 <= n <= 16:
             return None
